@@ -428,6 +428,9 @@ def mk_cmp(op, a, b):
     if op in ('==', '!=') and sa_ is not None and sb_ is not None and sa_.kind == 'str' and sb_.kind == 'str':
         r = sa_.args[0] == sb_.args[0]
         return (TRUE if r else FALSE) if op == '==' else (FALSE if r else TRUE)
+    if op in ('==', '!=') and ((sa_ is not None and sa_.kind == 'str' and b.const() is not None) or
+                               (sb_ is not None and sb_.kind == 'str' and a.const() is not None)):
+        return FALSE if op == '==' else TRUE          # a string never equals a number
     if op in ('==', '!=') and a.key == b.key:
         return TRUE if op == '==' else FALSE
     if op in ('is', 'is not'):
@@ -457,6 +460,10 @@ def mk_cmp(op, a, b):
                 return TRUE if neg else FALSE
             if is_positive(-d):
                 return FALSE if neg else TRUE
+            if is_nonneg(-d) and is_integer(d):
+                # d <= 0 always (e.g. -len(x)):  d < 0  <=>  d != 0
+                r = mk_not(mk_cmp('==', -d, Term.num(0)))
+                return mk_not(r) if neg else r
             a, b = d, Term.num(0)
     if op == '==':
         if _numeric_like(a) and _numeric_like(b):
@@ -1106,6 +1113,8 @@ def compare(a, b, max_conds=8):
     why = None
     for mask in range(1 << len(keys)):
         asg = {k: bool(mask >> i & 1) for i, k in enumerate(keys)}
+        if _infeasible(asg, conds):
+            continue
         xa, xb = (assume(a, asg), assume(b, asg)) if keys else (a, b)
         xa, xb = rename_loops(xa, 'C'), rename_loops(xb, 'C')     # comprehensions that survive this case
         v, w = _compare_flat(xa, xb)
@@ -1144,6 +1153,41 @@ def exposed_syms(t):
     return out
 
 
+DISJOINT_TYPES = [{'slice'}, {'list'}, {'tuple'}, {'ndarray'}, {'str'}, {'dict'}, {'int'}, {'float'}, {'Quantity'}, {'PurePath'},
+                  {'Waterfall'}, {'bytes'}]
+
+
+def _isinstance_info(c):
+    a = c.single_atom()
+    if a is not None and a.kind == 'call' and a.args[0] == 'isinstance' and len(a.args[1]) == 2:
+        names = set()
+        for x in all_atoms(a.args[1][1]).values():
+            if x.kind in ('builtin', 'ext', 'class'):
+                names.add(str(x.args[0]).split('.')[-1])
+        return a.args[1][0].key, names
+    return None
+
+
+def _infeasible(asg, conds):
+    """two isinstance tests of the same value against disjoint builtin types cannot both hold"""
+    true_tests = {}
+    for k, v in asg.items():
+        if not v:
+            continue
+        info = _isinstance_info(conds[k])
+        if info is None:
+            continue
+        subj, names = info
+        for other in true_tests.get(subj, []):
+            groups_a = [i for i, g in enumerate(DISJOINT_TYPES) if g & names]
+            groups_b = [i for i, g in enumerate(DISJOINT_TYPES) if g & other]
+            if groups_a and groups_b and len(groups_a) == len([n for n in names]) and len(groups_b) == len([n for n in other]) \
+                    and not (set(groups_a) & set(groups_b)):
+                return True
+        true_tests.setdefault(subj, []).append(names)
+    return False
+
+
 def _compare_flat(a, b):
     if a.key == b.key:
         return EQUAL, None
@@ -1175,6 +1219,9 @@ def _compare_flat(a, b):
         return out
     for side in (only_a, only_b):
         lv = _leaves(side)
+        if lv and all(x.kind == 'after' for x in lv):
+            return UNDECIDED, 'one side goes through the result of a loop that the other side expresses differently (not modelled)'
+
         if lv and all(_hidden_shape(x) or (x.kind == 'sub' and x.args[0].single_atom() is not None
                                            and _hidden_shape(x.args[0].single_atom())) for x in lv):
             # one side differs from the other only by reading the shape of a loop-carried array; whether the
